@@ -39,6 +39,37 @@ func randKeys(r *rand.Rand, n int) []uint64 {
 	return out
 }
 
+// swapOneValue: a with the first or last value of one of its runs (preferably the first or the last run) replaced by
+// one value that is not in a (next to a run, or far away): same cardinality, same number of chunks, a different set.
+func swapOneValue(r *rand.Rand, a iset, key uint64) (iset, bool) {
+	base := key << 16
+	in := a.intersect(iset{span{base, base + 65535}})
+	out := a.complementIn(base, base+65535)
+	if in.empty() || out.empty() {
+		return nil, false
+	}
+	sp := in[r.Intn(len(in))]
+	switch r.Intn(3) {
+	case 0:
+		sp = in[0]
+	case 1:
+		sp = in[len(in)-1]
+	}
+	drop := sp.hi
+	if r.Intn(2) == 0 {
+		drop = sp.lo
+	}
+	o := out[r.Intn(len(out))]
+	add := o.lo
+	switch r.Intn(3) {
+	case 0:
+		add = o.hi
+	case 1:
+		add = o.lo + uint64(r.Int63n(int64(o.hi-o.lo+1)))
+	}
+	return a.minus(iset{span{drop, drop}}).union(iset{span{add, add}}), true
+}
+
 // fragmentingPair: two run-shaped sets (about a thousand runs each, cheap as run chunks) whose intersection falls apart
 // into about two thousand two-value pieces with a cardinality of exactly 4095, 4096 or 4097, and whose difference /
 // symmetric difference are fragmented likewise: results of run x run kernels right at the array/bitmap threshold with
